@@ -677,6 +677,11 @@ class BaseVersion:
                     convert = matches[-1]
                     force_raise = False
                     break
+        elif m := re.match(r"-(?P<number>\d+)$", letter):
+            # PEP 440 implicit post release: ``1.0-1`` is ``1.0.post1``.
+            convert = "post"
+            match = m.groupdict()
+            force_raise = False
         else:
             convert = letter
             match = {"number": "0"}
